@@ -275,6 +275,14 @@ class DictList(list):
         other : iterable
             other must contain only unique id's present in the list
         """
+        other = list(other)
+        positions = set()
+        for item in other:
+            # raises ValueError for a missing item before anything is removed
+            position = self.index(item)
+            if position in positions:
+                raise ValueError(f"{str(item)} is given more than once")
+            positions.add(position)
         for item in other:
             self.remove(item)
         return self
